@@ -750,7 +750,7 @@ def r3_dc_gain(ctx):
             ctx.error(f"{st}: _process_ic", None, str(e))
             continue
         ok = (not is_unknown(sig)) and not isinstance(sig, (tuple, DictValue)) and need(sig).equals(F.sym("sig") - s1)
-        ctx.check(ok, f"{st}: ic='steady' removes the first sample from the signal", pfn, None if ok else repr(sig))
+        _check(ctx, ok, f"{st}: ic='steady' removes the first sample from the signal", pfn, None if ok else repr(sig), opaque=[sig])
         dv = X.truth(doic)
         if dv is None:
             ctx.error(f"{st}: doic", pfn, repr(doic))
@@ -837,25 +837,36 @@ def _alloc_rows(S_, v):
 
 
 def _arange(v, sr):
-    """np.arange(a, b) / sr  or  np.arange(n) / sr  -> (a, b)"""
+    """scale * np.arange(a, b) -> (a, b, scale); a slice `[s:]` of such a vector -> (a + s, b, scale); None when the value is not of this form"""
     if v is None or is_unknown(v) or isinstance(v, (tuple, DictValue)):
         return None
-    for scaled in (False, True):
-        # (np.arange(n) / sr)[s:]  and  np.arange(n)[s:] / sr  ->  np.arange(s, n) / sr
-        u0 = unfn(need(v) * sr if scaled else need(v))
-        if u0 and u0[0] == "idx" and len(u0[1]) == 2 and not isinstance(u0[1][0], str) and not isinstance(u0[1][1], str):
-            sl = unfn(u0[1][1])
-            if sl and sl[0] == "slice" and len(sl[1]) == 3 and sym_of(sl[1][1]) == "None" and sym_of(sl[1][2]) == "None":
-                inner = _arange(u0[1][0] / sr if scaled else u0[1][0], sr)
-                if inner is not None:
-                    return (inner[0] if sym_of(sl[1][0]) == "None" else inner[0] + sl[1][0]), inner[1]
-            return None
-    u = unfn(need(v) * sr)
-    if u and u[0].split(".")[-1] == "arange" and all(not isinstance(z, str) for z in u[1]):
-        if len(u[1]) == 1:
-            return F.const(0), u[1][0]
-        if len(u[1]) == 2:
-            return u[1][0], u[1][1]
+    v = need(v)
+    u0 = unfn(v)
+    if u0 and u0[0] == "idx" and len(u0[1]) == 2 and not isinstance(u0[1][0], str) and not isinstance(u0[1][1], str):
+        sl = unfn(u0[1][1])
+        if sl and sl[0] == "slice" and len(sl[1]) == 3 and sym_of(sl[1][1]) == "None" and sym_of(sl[1][2]) == "None":
+            inner = _arange(u0[1][0], sr)
+            if inner is not None:
+                return (inner[0] if sym_of(sl[1][0]) == "None" else inner[0] + sl[1][0]), inner[1], inner[2]
+        return None
+    cands = []
+    for at in sorted(v.n.atoms()):
+        av = F.Rat(F.Poly.atom(at))
+        ua = unfn(av)
+        if ua and ((ua[0].split(".")[-1] == "arange" and ua[0].startswith("call:")) or ua[0] == "idx"):
+            cands.append(av)
+    for av in cands:
+        scale = v / av
+        if X.contains(scale, av):
+            continue
+        ua = unfn(av)
+        if ua[0] == "idx":
+            inner = _arange(av, sr)
+            if inner is not None:
+                return inner[0], inner[1], inner[2] * scale
+            continue
+        if all(not isinstance(z, str) for z in ua[1]) and len(ua[1]) in (1, 2):
+            return (F.const(0), ua[1][0], scale) if len(ua[1]) == 1 else (ua[1][0], ua[1][1], scale)
     return None
 
 
@@ -993,7 +1004,7 @@ def r4_windows(ctx):
                     bad_t.append("resp has no entry 't'")
                 elif t is None:
                     form_t.append(repr(tv)[:200])
-                elif not (t[0].equals(start) and t[1].equals(f["rows"])):
+                elif not (t[0].equals(start) and t[1].equals(f["rows"]) and (t[2] * f["sr"]).equals(1)):
                     bad_t.append({"t": repr(tv)[:200], "expected": f"arange({start!r}, {f['rows']!r}) / {f['sr']!r}"})
                 srv = ent.get("sr", [None])[-1]
                 if srv is None:
@@ -1045,6 +1056,9 @@ def r4_windows(ctx):
     for time in TIMES:
         tag = f"srs (time={time}, parallel)"
         if time not in serial_rows:
+            continue
+        if not serial_rows[time]:
+            ctx.error(f"{tag}: the shared history buffer has the rows of the serial resp['hist'] - not decided: the serial allocation was not read", fn)
             continue
         try:
             got = []
@@ -1165,6 +1179,21 @@ def _contract_call(node, ev):
     return NotImplemented
 
 
+def _real_modulus(v):
+    """abs(z) with z a formula in I -> sqrt(z conj(z)) (every other atom is a real quantity): |H|^2 written with a complex transfer function"""
+    if v is None or is_unknown(v) or isinstance(v, (tuple, DictValue)) or "abs" not in X.fn_names(v):
+        return v
+
+    def f(name, args):
+        if name == "abs" and len(args) == 1 and not isinstance(args[0], str) and c03_frf.has_I(args[0]) and "abs" not in X.fn_names(args[0]):
+            try:
+                return F.sqrt(args[0] * c03_frf.conj(args[0]))
+            except Exception:  # noqa
+                return None
+        return None
+    return c03_frf.rewrite(v, f)
+
+
 def _indep(w, name):
     """w does not depend on the symbol `name` (decided by substitution and cross-multiplied equality)"""
     return w.subs({name: F.sym(name + "#")}).equals(w)
@@ -1236,13 +1265,13 @@ def r6_vrs(ctx):
                     if not (u and u[0] == "red:sum" and not isinstance(u[1][0], str)):
                         ctx.error(f"{tag}: stored spectrum value is not sqrt(sum(...))", stn, repr(val)[:300])
                         continue
-                    integrand = u[1][0]
+                    integrand = _real_modulus(u[1][0])
                     kname = sym_of(need(ix)) if ix is not None else None
                     w = integrand / (T2(G, F.fn("idx", FnV, need(ix)) if ix is not None else FnV) * P)
                     ok = not w.is_zero() and _indep(w, "Q") and _indep(w, pname) and (kname is None or _indep(w, kname))
-                    ctx.check(ok, f"{tag}: integrand equals |T|^2 * PSD * w with T the base-drive transmissibility "
-                                  "(1+(2 zeta p)^2)/((1-p^2)^2+(2 zeta p)^2), p = grid/Fn[k], PSD on the same grid, w independent of Q, of the oscillator and of the PSD", stn,
-                              None if ok else {"integrand": repr(integrand)[:500]})
+                    _check(ctx, ok, f"{tag}: integrand equals |T|^2 * PSD * w with T the base-drive transmissibility "
+                           "(1+(2 zeta p)^2)/((1-p^2)^2+(2 zeta p)^2), p = grid/Fn[k], PSD on the same grid, w independent of Q, of the oscillator and of the PSD", stn,
+                           None if ok else {"integrand": repr(integrand)[:500]}, opaque=[c03_frf.abstract(integrand, G, FnV)])
                     if ok:
                         weights.setdefault(fn_given, []).append((gr, w, stn))
                         # the weights are the documented `delta freq_i`: on a uniformly spaced grid every definition of it (forward, backward, central) is the step
@@ -1275,9 +1304,11 @@ def r6_vrs(ctx):
                     if not pc:
                         ctx.error(f"{tag}: resp['psd'] is not an array filled in the function", S_.ret_node(), repr(pv)[:200])
                     for _nm, ix, val, stn in pc:
+                        val = _real_modulus(val)
                         ok = not is_unknown(val) and not (ix is not None and is_unknown(ix)) and not isinstance(val, (tuple, DictValue)) \
                             and need(val).equals(T2(G, F.fn("idx", FnV, need(ix)) if ix is not None else FnV) * P)
-                        ctx.check(ok, f"{tag}: resp['psd'][k] is |T(grid / Fn[k])|^2 * PSD", stn, None if ok else repr(val)[:400])
+                        _check(ctx, ok, f"{tag}: resp['psd'][k] is |T(grid / Fn[k])|^2 * PSD", stn, None if ok else repr(val)[:400],
+                               opaque=[c03_frf.abstract(val, G, FnV)] if not is_unknown(val) and not isinstance(val, (tuple, DictValue)) else [])
                 # Miles
                 zm = ret[1]
                 if is_unknown(zm) or isinstance(zm, (tuple, DictValue)):
